@@ -51,10 +51,22 @@ func getRawUrlPath(u *url.URL) string {
 }
 
 // nolint: funlen,gocognit,gocyclo
+// geoip.* are the deprecated names of the client.geo.* variables
+// https://developer.fastly.com/reference/vcl/variables/geolocation/
+func geoipAlias(name string) string {
+	if suffix, ok := strings.CutPrefix(name, "geoip."); ok && name != GEOIP_USE_X_FORWARDED_FOR {
+		return "client.geo." + suffix
+	}
+	return name
+}
+
 func (v *AllScopeVariables) Get(s context.Scope, name string) (value.Value, error) {
 	req := v.ctx.Request
+	name = geoipAlias(name)
 
 	switch name {
+	case GEOIP_USE_X_FORWARDED_FOR:
+		return v.ctx.GeoipUseXForwardedFor, nil
 	case BEREQ_IS_CLUSTERING:
 		if v := lookupOverride(v.ctx, name); v != nil {
 			return v, nil
@@ -914,7 +926,13 @@ func (v *AllScopeVariables) getFromRegex(name string) (value.Value, error) {
 }
 
 func (v *AllScopeVariables) Set(s context.Scope, name, operator string, val value.Value) error {
+	name = geoipAlias(name)
 	switch strings.ToLower(name) {
+	case GEOIP_USE_X_FORWARDED_FOR:
+		if err := doAssign(v.ctx.GeoipUseXForwardedFor, operator, val); err != nil {
+			return errors.WithStack(err)
+		}
+		return nil
 	case CLIENT_IDENTITY:
 		if v.ctx.ClientIdentity == nil {
 			v.ctx.ClientIdentity = &value.String{Value: ""}
